@@ -325,7 +325,11 @@ func run(e *core.Env) {
 		frameSrc := sender.IP
 		sealer := sender
 		lie := ""
-		switch tp.Pick(10, 1, 1, 1, 1) {
+		switch tp.Pick(10, 1, 1, 1, 1, 1) {
+		case 5:
+			// not an IPv6 packet at all: another version number over bytes that would be an
+			// admissible IPv6 packet - it has no "inner IPv6 source and destination"
+			lie = "not-ipv6"
 		case 1:
 			innerSrc, lie = nodes[1+tp.Intn(3)].IP, "inner-src"
 			if innerSrc == sender.IP {
@@ -353,6 +357,9 @@ func run(e *core.Env) {
 		}
 		payload := []byte(fmt.Sprintf("IN%05d:%x", seq, tp.Bytes(4)))
 		pkt := packet(innerSrc, innerDst, proto, sport, dport, payload)
+		if lie == "not-ipv6" {
+			pkt[0] = byte([]int{4, 0, 5, 7, 15}[tp.Intn(5)])<<4 | pkt[0]&0x0f
+		}
 		f, err := sender.Inst.Builder.NewFrameV1(frameSrc, R.IP, frame.NetworkTraffic, nil, pkt, nil)
 		if err != nil {
 			e.Infra("frame: %v", err)
